@@ -18,6 +18,7 @@ import (
 	"os"
 	"sort"
 	"strings"
+	"time"
 
 	"github.com/glycerine/zygomys/v9/zygo"
 	"verif/harness/lib"
@@ -176,6 +177,19 @@ func (h *Harness) templates(depths []int) {
 				h.info["template "+t.Name] = o1
 			}
 		}
+		if t.Tail {
+			// a template whose self call IS in tail position: same marks at depth 10 and 1000
+			o10, m10 := h.measure(t.Source(10, false), budgetFor(10))
+			o1k, m1k := h.measure(t.Source(1000, false), budgetFor(1000))
+			h.counts["space-comparisons"]++
+			if o10 != o1k {
+				h.fail(Failure{"template-deep-value", t.Name, 1000, t.Source(1000, false), o1k, o10, "a tail template returns the same value at every depth", 30, ""})
+			}
+			if m10 != m1k {
+				h.fail(Failure{"template-space", t.Name, 1000, t.Source(1000, false), "high-water marks data,scope,addr,loop = " + m1k.String(), "as at depth 10 = " + m10.String(),
+					"the self call of this template is in tail position (surface syntax outside the modelled core) but the stacks grow with the depth", 30, ""})
+			}
+		}
 	}
 }
 
@@ -260,6 +274,8 @@ func main() {
 		return
 	}
 
+	t0 := time.Now()
+	lap := func(name string) { h.info["seconds_"+name] = int(time.Since(t0).Seconds()); t0 = time.Now() }
 	h.sanity()
 
 	// 1. every context list of nesting 0..2 (3 in thorough; a sample of 3 in quick) x pre x base
@@ -308,6 +324,7 @@ func main() {
 		h.shape(sh, small, deep, twinDeep, modelDeep)
 	}
 	h.out.Extra["shapes"] = len(shapes)
+	lap("shapes")
 
 	// 2. very deep runs: complete, same observable (scaled), same high-water marks
 	very := []Shape{{nil, "none", "val"}}
@@ -350,9 +367,16 @@ func main() {
 		hshapes = append(hshapes, Shape{[]string{"scope", "letseq", "or"}, "for", "val"}, Shape{[]string{"begin"}, "varargs", "val"})
 		hdeep = []int{1000, 100000}
 	}
+	lap("very-deep")
 	h.macros(mdeep)
+	lap("macros")
 	h.histories(hshapes, hdeep)
+	lap("histories")
 	h.places(mdeep)
+	h.escapes(hdeep)
+	lap("places-escapes")
+	h.lazies([]int{150}) // thunks capture the growing accumulators: closure creation is quadratic in their size
+	lap("lazies")
 	if !thorough && len(h.failures) == 0 {
 		// one very deep run of each family in the quick tier
 		m := MacroShapes[rng.Intn(len(MacroShapes))]
@@ -363,7 +387,9 @@ func main() {
 	}
 
 	// 3. templates outside the modelled core / non-tail contexts
+	lap("macro-very-deep")
 	h.templates([]int{0, 1, 2, 3, 4, 10})
+	lap("templates")
 
 	// 4. the function's own name rebound (known finding tco-by-name): the model names the deviation
 	for i, mk := range shadowPrograms {
@@ -410,8 +436,12 @@ func replay(h *Harness, path string) {
 	}
 	src := f.Failure.Source
 	if src == "" {
-		sh, _ := ParseShape(f.Failure.Shape)
-		src = sh.Program(f.Failure.Depth).Source(r.Style{})
+		if strings.HasPrefix(f.Failure.Shape, "escape:") {
+			src = EscapeProgram(f.Failure.Shape[7:], f.Failure.Depth).Source(r.Style{})
+		} else {
+			sh, _ := ParseShape(f.Failure.Shape)
+			src = sh.Program(f.Failure.Depth).Source(r.Style{})
+		}
 	}
 	if f.Failure.Prelude != "" {
 		res := lib.Eval(h.run.Env, f.Failure.Prelude, 100000)
